@@ -60,22 +60,56 @@ THEOREMS = [
      '(forall d : list Z, iter_permutations d = Some (all_arrangements d))%Z'),
     ('c15_model_implies_spec',
      '(forall c : case, in_scope c -> model_check c = true -> spec_check c = true)%Z'),
+    ('c15_next_perm_direct',
+     '(forall (d : list Z) (r : bool) (out : list Z), spec_next_direct d r out = true <-> (r, out) = next_permutation d)%Z'),
+    ('c15_spec_next_direct_agrees',
+     '(forall (d : list Z) (r : bool) (out : list Z), spec_next_direct d r out = spec_next d r out)%Z'),
+    ('c15_submasks_take',
+     'forall (w x : N) (l : list N) (k : nat), iter_submasks w x = Some l -> iter_submasks_take w x k = firstn k l'),
+    ('c15_supermasks_take',
+     'forall (w x : N) (l : list N) (k : nat), iter_supermasks w x = Some l -> iter_supermasks_take w x k = firstn k l'),
+    ('c15_iter_permutations_take',
+     '(forall (d : list Z) (l : list (list Z)) (k : nat), iter_permutations d = Some l -> iter_permutations_take d k = firstn k l)%Z'),
+    ('c15_submasks_take_closed',
+     'forall (w x : N) (k : nat), (x < 2 ^ w -> iter_submasks_take w x k = sub_closed x (2 ^ popcount x - 1) k)%N'),
+    ('c15_supermasks_take_closed',
+     'forall (w x : N) (k : nat), (x < 2 ^ w -> iter_supermasks_take w x k = sup_closed x (2 ^ w - 1 - x) (2 ^ popcount (2 ^ w - 1 - x) - 1) 0 k)%N'),
 ]
 RULE = ("masks: every u8 and i8 mask for both iterators (thorough: also every u16/i16 mask with at most 6 free bits and samples up "
         "to 10), structured and random masks of the 32/64/128-bit and pointer-sized types with at most 10 (thorough 12) free bits "
-        "(bits 0, 1, 31, 32, 63, 64, 126, 127, the sign bit; zero and all-ones), signed types through their bit pattern; "
+        "(bits 0, 1, 31, 32, 63, 64, 126, 127, the sign bit; zero and all-ones; for every wide type and iterator one mask with 8 "
+        "(thorough 12) scattered free bits and runs of 3 and 7 (thorough 2..10) adjacent free bits at shifts 0, 28, 30, 60, 62, "
+        "120 and ending at the top bit), signed types through their bit pattern; prefixes take(k), k in {1, 2, 5, 300}, of masks "
+        "whose listing cannot be drained (all 12 types: all-ones / zero, 23..127 free bits as low block, high block, scattered) "
+        "and k around the full length on short listings; the same listings obtained through the Iterator protocol (size_hint "
+        "bracket, count, last, nth, fold, for_each, collect, extend, skip, step_by, by_ref, zip of two instances, a half-used "
+        "dropped instance), with nested iterators (for s in submasks(x) for t in submasks(s)) and with two other mask iterators "
+        "polled in turn, every instantiation at least once per family; "
         "permutations: every sequence over a 3-letter alphabet up to length 5 (thorough 7) for next_permutation and "
         "iter_permutations, every permutation of up to 5 (thorough 6) distinct elements, random sequences with many duplicates, "
-        "negative and extreme i64 values; neighbours: every grid up to 6x6 and every cell for the three iterators, 0-sized and "
-        "1xk grids, cells just outside, huge grids; non-trivial = mask with >= 2 free bits / sequence of length >= 3 with a "
+        "negative and extreme i64 values; long sequences (lengths 10..40, 63..65, 127..129, 255..257, 1000, 65537; thorough also "
+        "4096, 65535, 65536) with the pivot in front, at the end, in the middle of a long non-increasing tail holding copies of "
+        "the pivot value, all-equal, decreasing, last arrangement with repeats; prefixes of iter_permutations on 9..30 elements "
+        "and take(k) around the full length; iter_permutations through the Iterator protocol and with a second iterator polled "
+        "in turn; element types u8, String, (i32, i32), a struct ordered by its key only (same objects afterwards), (), a "
+        "clone/drop-counting type (nothing leaked or dropped twice), arrays and boxed slices; sub-slices &mut v[a..b] (outside "
+        "untouched, larger element right behind the range); "
+        "neighbours: every grid up to 6x6 and 8x8 (thorough up to 9x9) and every cell for the three iterators, borders of 9x9, "
+        "7x9, 16x16, 0-sized and 1xk grids, cells just outside, sizes 255..257, 65535..65537, 2^31-1, 2^31, 2^32, 2^32+1, 2^62, "
+        "2^63-1 at corners / edges / centre, the Iterator protocol with a second iterator polled in turn; "
+        "non-trivial = mask with >= 2 free bits / sequence of length >= 3 with a "
         "repeated element or a non-trivial pivot / border or corner cell")
 TRUSTED = ["executor harness/crates/c15 (calls rlib_iter::{iter_submasks, iter_supermasks, next_permutation, iter_permutations, "
            "iter_neighbours_4, iter_neighbours_4d, iter_neighbours_8}, prints the collected output; signed masks are cast "
-           "from/to the unsigned type of the same width)",
-           "checks/c15.py (case generator, Coq term printer)"]
+           "from/to the unsigned type of the same width; the protocol / nesting / interleaving / element-type ops compare what "
+           "they obtain with the plain next() listing or with the definition of a complete listing and print F instead of the "
+           "observation when something disagrees; other element types are mapped from/to i64 by order-preserving bijections)",
+           "checks/c15.py (case generator, Coq term printer incl. the run-length and bit-position encodings of long outputs)"]
 ASSUMPTIONS = ["a w-bit integer is modelled by its bit pattern (an N below 2^w); isize/usize are 64 bits wide",
-               "Vec<T: Ord> is modelled as list Z (sampled element type: i64)",
+               "Vec<T: Ord> / &mut [T] is modelled as list Z (sampled element types: i64, u8, String, (i32, i32), keyed struct, (), "
+               "a drop-counting type; Vec, sub-slice, array, boxed slice)",
                "usize -> isize casts in the neighbour iterators are the identity (grid sizes and coordinates below 2^63)",
+               "calls of next() after the first None are not specified and not made",
                "data-dependent loops use binary fuel (2^130 for masks, (n+1)^(n+1) for permutations); the theorems prove the fuel is never exhausted"]
 
 WIDTH = {"u8": 8, "i8": 8, "u16": 16, "i16": 16, "u32": 32, "i32": 32, "u64": 64, "i64": 64,
@@ -84,14 +118,57 @@ WIDE = ["u32", "i32", "u64", "i64", "u128", "i128", "usize", "isize"]
 
 
 # ----------------------------------------------------------------------------- executor / Coq printing
+# Case kinds.  The first group is observed directly; the second group prints the SAME observation line through another
+# executor op (Iterator protocol, several live iterators, other element types, sub-slices) and is fed to the same Coq
+# case constructor; `subp/supp/ipp` are prefixes (`take(k)`) with their own constructors.
+MASK_FULL = {"sub": "sub", "sup": "sup", "subm": "sub", "supm": "sup", "subnest": "sub", "supnest": "sup",
+             "subzip": "sub", "supzip": "sup"}
+MASK_PRE = {"subp": "sub", "supp": "sup"}
+NEXT_OPS = ("np", "npg", "npsub")
+ITER_FULL = ("ip", "ipm", "ipzip", "ipg")
+NB_OPS = {"n4": "n4", "n4d": "n4d", "n8": "n8", "n4m": "n4", "n4dm": "n4d", "n8m": "n8"}
+
+
+def mask_kind(c):
+    """'sub' / 'sup' for every mask case, else None"""
+    return MASK_FULL.get(c["op"]) or MASK_PRE.get(c["op"])
+
+
+def next_input(c):
+    """the sequence next_permutation is applied to"""
+    return c["d"][c["a"]:c["b"]] if c["op"] == "npsub" else c["d"]
+
+
 def harness_line(c):
     op = c["op"]
-    if op in ("sub", "sup"):
-        return "%s %s %d %d" % (op, c["ty"], c["x"], (1 << free_bits(c)) + 1)
+    if op in MASK_FULL:
+        lim = (1 << free_bits(c)) + 1
+        if op in ("subm", "supm"):
+            return "%s %s %d %d %d" % (op, c["ty"], c["x"], lim, c["k"])
+        if op in ("subzip", "supzip"):
+            return "%s %s %d %d %d %d" % (op, c["ty"], c["x"], lim, c["y"], c["z"])
+        return "%s %s %d %d" % (op, c["ty"], c["x"], lim)
+    if op in MASK_PRE:
+        return "%s %s %d %d" % (MASK_PRE[op], c["ty"], c["x"], c["k"])
     if op == "np":
         return " ".join([op] + [str(v) for v in c["d"]])
+    if op == "npg":
+        return " ".join([op, c["kind"]] + [str(v) for v in c["d"]])
+    if op == "npsub":
+        return " ".join([op, str(c["a"]), str(c["b"])] + [str(v) for v in c["d"]])
     if op == "ip":
         return " ".join([op, str(n_arrangements(c["d"]) + 1)] + [str(v) for v in c["d"]])
+    if op == "ipp":
+        return " ".join(["ip", str(c["k"])] + [str(v) for v in c["d"]])
+    if op == "ipm":
+        return " ".join([op, str(n_arrangements(c["d"]) + 1), str(c["k"])] + [str(v) for v in c["d"]])
+    if op == "ipg":
+        return " ".join([op, c["kind"], str(n_arrangements(c["d"]) + 1)] + [str(v) for v in c["d"]])
+    if op == "ipzip":
+        lim = max(n_arrangements(c["d"]), n_arrangements(c["d2"])) + 1
+        return " ".join([op, str(lim), str(len(c["d"]))] + [str(v) for v in c["d"] + c["d2"]])
+    if op in ("n4m", "n4dm", "n8m"):
+        return "%s %d %d %d %d %d" % (op, c["n"], c["m"], c["i"], c["j"], c["k"])
     return "%s %d %d %d %d" % (op, c["n"], c["m"], c["i"], c["j"])
 
 
@@ -112,6 +189,22 @@ def zl(vs):
     return "[" + ";".join(z(v) for v in vs) + "]"
 
 
+def zl_long(vs):
+    """long sequences with long runs are printed run-length encoded (Corr.v, rle): Coq parses a 65537-element list
+    literal in 9 s"""
+    vs = [int(v) for v in vs]
+    if len(vs) > 48:
+        runs = []
+        for v in vs:
+            if runs and runs[-1][0] == v:
+                runs[-1][1] += 1
+            else:
+                runs.append([v, 1])
+        if 3 * len(runs) <= len(vs):
+            return "(rle [" + ";".join("(%s,%d)" % (z(v), n) for v, n in runs) + "])"
+    return zl(vs)
+
+
 def parse_ip(toks):
     items, cur = [], []
     for t in toks:
@@ -125,33 +218,62 @@ def parse_ip(toks):
     return items
 
 
+def pext(u, mask):
+    r, k = 0, 0
+    while mask:
+        low = mask & -mask
+        if u & low:
+            r |= 1 << k
+        k += 1
+        mask ^= low
+    return r
+
+
 def coq_term(c, obs, profile):
     t = obs.split()
-    if not t or t[0] != "R":
-        # a panic is never a legal outcome for these iterators: print an observation that no model output / spec admits
-        bad = {"sub": "R 1 1", "sup": "R 0 0", "np": "R 1", "ip": "R", "n4": "R 0 0 0 0", "n4d": "R 0 0 0 0", "n8": "R 0 0 0 0"}
-        t = bad[c["op"]].split()
     op = c["op"]
-    if op in ("sub", "sup"):
+    mk = mask_kind(c)
+    if not t or t[0] != "R":
+        # a panic (P) or a failed internal consistency check of the executor (F ...) is never a legal outcome for
+        # these iterators: print an observation that no model output / spec admits
+        if mk:
+            t = ("R 1 1" if mk == "sub" else "R 0 0").split()
+        elif op in NEXT_OPS:
+            t = ["R", "1"]
+        elif op in ITER_FULL or op == "ipp":
+            t = ["R"]
+        else:
+            t = "R 0 0 0 0".split()
+    if mk:
         w = WIDTH[c["ty"]]
         items = [int(v) for v in t[1:]]
         out = zl(items)
+        pre = op in MASK_PRE
         if w > 16:
             # wide numerals are slow to parse: print each item by its bits at the free positions (Corr.v, unpack)
-            free = c["x"] if op == "sub" else ((1 << w) - 1) ^ c["x"]
-            base = 0 if op == "sub" else c["x"]
+            free = c["x"] if mk == "sub" else ((1 << w) - 1) ^ c["x"]
+            base = 0 if mk == "sub" else c["x"]
             if all((u & ~free) == base for u in items):
-                pos = [p for p in range(w) if free >> p & 1]
-                idx = [sum(((u >> p) & 1) << k for k, p in enumerate(pos)) for u in items]
-                out = "(unpack_sub %d %s)" % (c["x"], zl(idx)) if op == "sub" else "(unpack_sup %d %d %s)" % (w, c["x"], zl(idx))
-        return "(%s %d %d %s)" % ("CSub" if op == "sub" else "CSup", w, c["x"], out)
-    if op == "np":
-        return "(CNext %s %s %s)" % (zl(c["d"]), "true" if t[1] == "1" else "false", zl(t[2:]))
-    if op == "ip":
+                idx = [pext(u, free) for u in items]
+                if mk == "sup":
+                    out = "(unpack_sup %d %d %s)" % (w, c["x"], zl(idx))
+                elif pre and popcount(free) > 40:
+                    top = (1 << popcount(free)) - 1        # items of a prefix are close to x: distance from the top reading
+                    out = "(unpack_sub_top %d %s)" % (c["x"], zl([top - i for i in idx]))
+                else:
+                    out = "(unpack_sub %d %s)" % (c["x"], zl(idx))
+        if pre:
+            return "(%s %d %d %d %s)" % ("CSubPre" if mk == "sub" else "CSupPre", w, c["x"], c["k"], out)
+        return "(%s %d %d %s)" % ("CSub" if mk == "sub" else "CSup", w, c["x"], out)
+    if op in NEXT_OPS:
+        return "(CNext %s %s %s)" % (zl_long(next_input(c)), "true" if t[1] == "1" else "false", zl_long(t[2:]))
+    if op == "ipp":
+        return "(CIterPre %s %d [%s])" % (zl(c["d"]), c["k"], ";".join(zl(it) for it in parse_ip(t[1:])))
+    if op in ITER_FULL:
         return "(CIter %s [%s])" % (zl(c["d"]), ";".join(zl(it) for it in parse_ip(t[1:])))
     vals = t[1:]
     pairs = ["(%s,%s)" % (z(vals[k]), z(vals[k + 1])) for k in range(0, len(vals) - 1, 2)]
-    return "(CNb %s %d %d %d %d [%s])" % ({"n4": "K4", "n4d": "K4d", "n8": "K8"}[op], c["n"], c["m"], c["i"], c["j"], ";".join(pairs))
+    return "(CNb %s %d %d %d %d [%s])" % ({"n4": "K4", "n4d": "K4d", "n8": "K8"}[NB_OPS[op]], c["n"], c["m"], c["i"], c["j"], ";".join(pairs))
 
 
 def popcount(x):
@@ -160,15 +282,15 @@ def popcount(x):
 
 def free_bits(c):
     w = WIDTH[c["ty"]]
-    return popcount(c["x"]) if c["op"] == "sub" else w - popcount(c["x"])
+    return popcount(c["x"]) if mask_kind(c) == "sub" else w - popcount(c["x"])
 
 
 def nontrivial(c, obs):
     op = c["op"]
-    if op in ("sub", "sup"):
+    if mask_kind(c):
         return free_bits(c) >= 2
-    if op in ("np", "ip"):
-        d = c["d"]
+    if op in NEXT_OPS or op in ITER_FULL or op == "ipp":
+        d = next_input(c) if op in NEXT_OPS else c["d"]
         return len(d) >= 3 and (len(set(d)) < len(d) or d != sorted(d))
     return c["i"] in (0, c["n"] - 1) or c["j"] in (0, c["m"] - 1)
 
@@ -177,11 +299,16 @@ def classify(c, obs):
     op = c["op"]
     if obs == "P":
         return "%s/panic" % op
-    if op in ("sub", "sup"):
-        return "%s/%s/free%s" % (op, c["ty"], free_bits(c) if free_bits(c) < 4 else ("4-7" if free_bits(c) < 8 else "8+"))
-    if op in ("np", "ip"):
-        d = c["d"]
-        return "%s/len%d/%s" % (op, len(d), "dup" if len(set(d)) < len(d) else "distinct")
+    if obs.startswith("F"):
+        return "%s/executor-check-failed" % op
+    if mask_kind(c):
+        f = free_bits(c)
+        return "%s/%s/free%s" % (op, c["ty"], f if f < 4 else ("4-7" if f < 8 else ("8-13" if f < 14 else "14+")))
+    if op in NEXT_OPS or op in ITER_FULL or op == "ipp":
+        d = next_input(c) if op in NEXT_OPS else c["d"]
+        n = len(d)
+        size = "len%d" % n if n <= 9 else ("len10-99" if n < 100 else ("len100-999" if n < 1000 else "len1000+"))
+        return "%s%s/%s/%s" % (op, "-" + c["kind"] if "kind" in c else "", size, "dup" if len(set(d)) < n else "distinct")
     return "%s/%s" % (op, "interior" if 0 < c["i"] < c["n"] - 1 and 0 < c["j"] < c["m"] - 1 else "border")
 
 
@@ -251,7 +378,95 @@ def gen_masks(rng, tier):
         free = sum(1 << p for p in pos)
         op = rng.choice(["sub", "sup"])
         cases.append(mask_case(op, ty, free))
+    # every wide (type, op): one mask with exactly 8 (thorough: maxfree) free bits at random positions
+    for ty in WIDE:
+        w = WIDTH[ty]
+        for op in ("sub", "sup"):
+            cases.append(mask_case(op, ty, random_mask(rng, w, 8 if tier == "quick" else maxfree)))
+    # runs of adjacent free bits (long borrow / carry chains), crossing bits 31/32 and 63/64, ending at the sign bit
+    for ty in WIDE:
+        w = WIDTH[ty]
+        for k in ((3, 7) if tier == "quick" else range(2, 11)):
+            for sh in sorted({0, 28, 30, 60, 62, 120, w - k}):
+                if sh + k <= w:
+                    for op in ("sub", "sup"):
+                        cases.append(mask_case(op, ty, ((1 << k) - 1) << sh))
+    return cases + gen_mask_prefixes(rng, tier) + gen_mask_protocol(rng, tier)
+
+
+def random_mask(rng, w, k):
+    pos = list(range(w))
+    rng.shuffle(pos)
+    return sum(1 << q for q in pos[:k])
+
+
+def gen_mask_prefixes(rng, tier):
+    """take(k) of masks with many free bits (the full listing cannot be drained): all-ones / zero, popcounts around 32,
+    64 and 128, contiguous low / high blocks, scattered bits; and on 8-bit types k around the full length"""
+    cases = []
+    quick = tier == "quick"
+    for ty in WIDTH:
+        w = WIDTH[ty]
+        full = (1 << w) - 1
+        frees = [full]
+        for pc in (23, 31, 32, 33, 63, 64, 65, 127):
+            if pc < w:
+                frees += [(1 << pc) - 1, full ^ ((1 << (w - pc)) - 1), random_mask(rng, w, pc)]
+        if quick and len(frees) > 1:
+            frees = [full] + [rng.choice(frees[1:]) for _ in range(2)]
+        for free in frees:
+            for op in ("subp", "supp") if (not quick or free == full) else (rng.choice(["subp", "supp"]),):
+                ks = [1, 2, 5, 300] if not quick else ([5, rng.choice([1, 2, 300])] if free == full else [rng.choice([2, 5, 300])])
+                for k in ks:
+                    cases.append({"op": op, "ty": ty, "x": free if op == "subp" else full ^ free, "k": k})
+    # short listings: fewer items than asked for, exactly as many, one more
+    for _ in range(40 if quick else 600):
+        ty = rng.choice(["u8", "i8", "u8", "i8", "u16", "i16"] + WIDE)
+        w = WIDTH[ty]
+        free = rng.below(256) if w == 8 else random_mask(rng, w, rng.range(0, 6))
+        op = rng.choice(["subp", "supp"])
+        total = 1 << popcount(free)
+        k = max(1, rng.choice([1, total - 1, total, total + 1, total + 7, rng.range(1, total)]))
+        cases.append({"op": op, "ty": ty, "x": free if op == "subp" else ((1 << w) - 1) ^ free, "k": k})
     return cases
+
+
+def gen_mask_protocol(rng, tier):
+    """the same listings obtained through the rest of the Iterator protocol (subm/supm), with nested iterators
+    (subnest/supnest) and with other iterators alive (subzip/supzip)"""
+    cases = []
+    quick = tier == "quick"
+
+    def small_free(w, kmax):
+        return rng.below(256) if w == 8 else random_mask(rng, w, rng.range(0, kmax))
+
+    def fam_free(w, fam, kmax):
+        free = small_free(w, min(kmax, 6) if fam == "nest" else kmax)
+        return free & 0x3f if fam == "nest" and popcount(free) > 6 else free       # nested: 3^free inner items
+
+    for ty in WIDTH:                                   # every instantiation at least once per op family
+        for fam in ("m", "nest", "zip"):
+            for kind in ("sub", "sup"):
+                cases.append(proto_case(rng, kind + fam, ty, fam_free(WIDTH[ty], fam, 5)))
+    for _ in range(30 if quick else 1500):
+        ty = rng.choice(list(WIDTH))
+        fam = rng.choice(["m", "m", "nest", "zip"])
+        cases.append(proto_case(rng, rng.choice(["sub", "sup"]) + fam, ty, fam_free(WIDTH[ty], fam, 8)))
+    return cases
+
+
+def proto_case(rng, op, ty, free):
+    w = WIDTH[ty]
+    full = (1 << w) - 1
+    c = {"op": op, "ty": ty, "x": free if op.startswith("sub") else full ^ free}
+    if op.endswith("m"):
+        total = 1 << popcount(free)
+        c["k"] = rng.choice([0, 1, 2, total - 1, total, total + 1, rng.below(total + 1)])
+        c["k"] = max(0, c["k"])
+    if op.endswith("zip"):
+        c["y"] = random_mask(rng, w, rng.range(0, 7))                       # its submasks are listed
+        c["z"] = full ^ random_mask(rng, w, rng.range(0, 7))                # its supermasks are listed
+    return c
 
 
 def gen_perms(rng, tier):
@@ -299,6 +514,141 @@ def gen_perms(rng, tier):
         cases.append({"op": "np", "d": d})
         if n <= 8 and rng.chance(1, 4):
             cases.append({"op": "ip", "d": d})
+    return cases + gen_perms_long(rng, tier) + gen_perms_protocol(rng, tier) + gen_perms_types(rng, tier)
+
+
+def long_shape(rng, n, shape):
+    """sequences of length n >= 10 by the position of the pivot and the contents of the non-increasing tail"""
+    alpha = rng.choice([[0, 1], [0, 1, 2], [-3, 0, 5, 9], list(range(12)), [-(1 << 63), 0, (1 << 63) - 1]])
+    if shape == "pivot-front":            # pivot at index 0, tail with copies of the pivot value and values on both sides
+        a = alpha[rng.below(len(alpha) - 1)]
+        tail = sorted([rng.choice(alpha) for _ in range(n - 2)] + [alpha[-1]], reverse=True)
+        return [a] + tail
+    if shape == "pivot-end":
+        return [rng.choice(alpha) for _ in range(n - 2)] + [alpha[0], alpha[1]]
+    if shape == "pivot-middle":           # random prefix, pivot, long tail (> 16 where n allows) holding copies of the pivot
+        t = rng.range(min(17, n - 2), max(min(17, n - 2), n - 2))
+        a = alpha[rng.below(len(alpha) - 1)]
+        tail = sorted([rng.choice(alpha) for _ in range(t - 3)] + [alpha[-1], a, a], reverse=True)
+        return [rng.choice(alpha) for _ in range(n - 1 - len(tail))] + [a] + tail
+    if shape == "all-equal":
+        return [alpha[0]] * n
+    if shape == "decreasing":             # last arrangement of n distinct values
+        return list(range(n, 0, -1))
+    if shape == "wrap-dup":               # last arrangement with repeated values
+        return sorted([rng.choice(alpha) for _ in range(n)], reverse=True)
+    if shape == "increasing":             # first arrangement of n distinct values
+        return list(range(n))
+    return [rng.choice(alpha) for _ in range(n)]           # "random"
+
+
+LONG_SHAPES = ["pivot-front", "pivot-end", "pivot-middle", "all-equal", "decreasing", "wrap-dup", "increasing", "random"]
+
+
+def giant_shape(rng, n, k):
+    """length n in the tens of thousands: a long constant run, then a short tail with the pivot (the model reads the list
+    by index, so the pivot must be near the end); printed run-length encoded"""
+    tail = [[1, 2], [1, 5, 4, 3, 2, 2, 1], [2, 3, 3, 2, 1, 1], [0, 1] + [1] * 20 + [0] * 10, [5, 9, 9, 7, 5, 5, 5, 3] * 1][k % 5]
+    return [rng.choice([0, 3])] * (n - len(tail)) + tail
+
+
+def gen_perms_long(rng, tier):
+    cases = []
+    quick = tier == "quick"
+    lengths = [10, 12, 16, 17, 18, 24, 33, 40, 63, 64, 65, 127, 128, 129, 255, 256, 257]
+    for n in lengths:
+        shapes = LONG_SHAPES if not quick else [LONG_SHAPES[(n + j) % len(LONG_SHAPES)] for j in range(3 if n < 100 else 2)]
+        if quick and n in (18, 40, 257):
+            shapes = shapes + ["pivot-middle"]
+        for sh in shapes:
+            for _ in range(1 if quick else 3):
+                cases.append({"op": "np", "d": long_shape(rng, n, sh)})
+    for sh in (["pivot-front", "wrap-dup"] if quick else LONG_SHAPES):
+        d = long_shape(rng, 1000, sh)
+        if sh in ("random", "pivot-end") :
+            d = sorted(d[:990]) + d[990:]            # long runs: printed run-length encoded
+        cases.append({"op": "np", "d": d})
+    if not quick:
+        for sh in ("pivot-front", "wrap-dup", "pivot-middle", "all-equal"):
+            cases.append({"op": "np", "d": long_shape(rng, 4096, sh)})
+        for n in (65535, 65536, 65537):
+            for k in range(3):
+                cases.append({"op": "np", "d": giant_shape(rng, n, rng.below(5))})
+    else:
+        cases.append({"op": "np", "d": giant_shape(rng, 65537, 1)})
+    # prefixes of iter_permutations on inputs whose full listing cannot be drained
+    for _ in range(5 if quick else 60):
+        n = rng.range(9, 30)
+        alpha = rng.choice([list(range(n)), [0, 1, 2, 3, 4, 5], [-2, 7], list(range(0, 4 * n, 3))])
+        d = [rng.choice(alpha) for _ in range(n)]
+        if len(set(d)) < 4:
+            d[:4] = [11, 12, 13, 14]
+        cases.append({"op": "ipp", "d": d, "k": rng.choice([50, 120, 500]) if not quick else rng.choice([30, 60, 200])})
+    # short inputs: fewer items than asked for, exactly as many, one more, a single item
+    for _ in range(25 if quick else 500):
+        n = rng.range(0, 6)
+        d = [rng.choice([0, 1, 2, 5]) for _ in range(n)]
+        total = n_arrangements(d)
+        cases.append({"op": "ipp", "d": d, "k": max(1, rng.choice([1, 2, total - 1, total, total + 1, total + 5]))})
+    return cases
+
+
+def gen_perms_protocol(rng, tier):
+    cases = []
+    quick = tier == "quick"
+    for _ in range(25 if quick else 500):
+        n = rng.range(0, 5 if quick else 6)
+        d = [rng.choice([0, 1, 2, 3, 7, -4]) for _ in range(n)]
+        total = n_arrangements(d)
+        cases.append({"op": "ipm", "d": d, "k": max(0, rng.choice([0, 1, total - 1, total, total + 1, rng.below(total + 1)]))})
+    for _ in range(15 if quick else 300):
+        d1 = [rng.choice([0, 1, 2, 3]) for _ in range(rng.range(0, 5))]
+        d2 = [rng.choice([0, 1, 2, 3]) for _ in range(rng.range(0, 5))]
+        cases.append({"op": "ipzip", "d": d1, "d2": d2})
+    return cases
+
+
+def typed_values(rng, kind, n):
+    if kind == "u8":
+        return [rng.choice([0, 1, 2, 127, 128, 200, 255]) for _ in range(n)]
+    if kind == "str":
+        return [rng.choice([0, 1, 2, 9, 10, 99, 100, 99999]) for _ in range(n)]
+    if kind == "tup":
+        return [rng.choice([-9, -5, -4, -1, 0, 1, 3, 4, 5, 22]) for _ in range(n)]
+    if kind == "unit":
+        return [0] * n
+    return [rng.choice([-(1 << 63), -7, 0, 1, 1, 2, 3, (1 << 63) - 1]) for _ in range(n)]
+
+
+def gen_perms_types(rng, tier):
+    """other element types (u8, String, tuples, a struct ordered by its key only, (), a clone/drop-counting type, arrays
+    and boxed slices) and sub-slices &mut v[a..b]"""
+    cases = []
+    quick = tier == "quick"
+    for kind in ("u8", "str", "tup", "key", "unit", "drop", "arr"):
+        for r in range(12 if quick else 150):
+            n = rng.range(0, 8) if r % 4 else rng.range(17, 70)
+            d = typed_values(rng, kind, n)
+            sh = rng.below(4)
+            if sh == 0:
+                d.sort(reverse=True)
+            elif sh == 1 and n >= 3:
+                t = rng.range(1, n - 1)
+                d = d[:t] + sorted(d[t:], reverse=True)
+            cases.append({"op": "npg", "kind": kind, "d": d})
+    for kind in ("u8", "str", "tup", "drop"):
+        for _ in range(4 if quick else 60):
+            cases.append({"op": "ipg", "kind": kind, "d": typed_values(rng, kind, rng.range(0, 5))})
+    for r in range(30 if quick else 500):
+        n = rng.range(0, 12)
+        d = [rng.choice([0, 1, 2, 3, 9]) for _ in range(n)]
+        a = rng.range(0, n)
+        b = rng.range(a, n)
+        if r % 3 == 0 and b < n and b - a >= 2:
+            # the scan for the swap partner runs to the end of the range: what follows the range is larger than everything
+            d[a:b] = [d[a]] + sorted(d[a + 1:b], reverse=True)
+            d[b] = 100
+        cases.append({"op": "npsub", "a": a, "b": b, "d": d})
     return cases
 
 
@@ -327,39 +677,127 @@ def gen_nb(rng, tier):
     for _ in range(ns):
         n, m = rng.range(1, 12), rng.range(1, 12)
         cases.append({"op": rng.choice(ops), "n": n, "m": m, "i": rng.range(0, n), "j": rng.range(0, m)})
+    quick = tier == "quick"
+    # popular board sizes: every cell
+    for (n, m) in ([(8, 8)] if quick else [(a, b) for a in range(1, 10) for b in range(1, 10) if a > 6 or b > 6]):
+        for i in range(n):
+            for j in range(m):
+                for op in ops:
+                    cases.append({"op": op, "n": n, "m": m, "i": i, "j": j})
+    for (n, m) in [(9, 9), (7, 9), (16, 16), (16, 9)]:
+        border = [(i, j) for i in range(n) for j in range(m) if i in (0, n - 1) or j in (0, m - 1)]
+        inner = [(rng.range(1, n - 2), rng.range(1, m - 2)) for _ in range(4 if quick else 20)]
+        for (i, j) in (border if not quick else [border[k] for k in range(0, len(border), 5)]) + inner:
+            cases.append({"op": rng.choice(ops) if quick else ops[(i + j) % 3], "n": n, "m": m, "i": i, "j": j})
+    # sizes around powers of two (narrowing casts, table sizes)
+    sizes = [255, 256, 257, 65535, 65536, 65537, (1 << 31) - 1, 1 << 31, 1 << 32, (1 << 32) + 1, (1 << 63) - 1]
+    pairs = [(a, a) for a in sizes] + [(sizes[k], sizes[(k + 3) % len(sizes)]) for k in range(len(sizes))] + [(3, sizes[-1]), (sizes[-1], 2)]
+    for (n, m) in pairs:
+        cells = [(n - 1, m - 1), (n - 2, 1), (0, m - 1), (n - 1, 0), (n // 2, m // 2), (n - 1, m // 2), (n, m - 1)]
+        for (i, j) in cells:
+            if i < 0 or j < 0 or i >= (1 << 63) - 1 or j >= (1 << 63) - 1:
+                continue
+            for op in (ops if not quick else [rng.choice(ops)]):
+                cases.append({"op": op, "n": n, "m": m, "i": i, "j": j})
+    # the same observations through the rest of the Iterator protocol, a second iterator polled in turn
+    mops = ("n4m", "n4dm", "n8m")
+    for (n, m) in [(1, 1), (3, 3), (2, 5)] + ([] if quick else [(4, 4), (1, 6), (5, 3)]):
+        for i in range(n):
+            for j in range(m):
+                for op in mops:
+                    cases.append({"op": op, "n": n, "m": m, "i": i, "j": j, "k": rng.range(0, 9)})
+    for _ in range(30 if quick else 600):
+        n, m = rng.choice([0, 1, 2, 3, 8, 12, 256, 1 << 40]), rng.choice([0, 1, 2, 3, 8, 12, 256, 1 << 40])
+        if n * m <= 400:                                  # the specification counts over all cells of such a grid
+            n, m = min(n, 12), min(m, 12)
+        i = rng.choice([0, 1, max(n - 1, 0), n, n // 2])
+        j = rng.choice([0, 1, max(m - 1, 0), m, m // 2])
+        cases.append({"op": rng.choice(mops), "n": n, "m": m, "i": i, "j": j, "k": rng.range(0, 9)})
     return cases
 
 
 def generate(rng, tier):
-    return gen_masks(rng.fork("masks"), tier) + gen_perms(rng.fork("perms"), tier) + gen_nb(rng.fork("nb"), tier)
+    cases = gen_masks(rng.fork("masks"), tier) + gen_perms(rng.fork("perms"), tier) + gen_nb(rng.fork("nb"), tier)
+    # the expensive cases (long listings) come in blocks: deal the cases out so that every batch file gets its share
+    lanes = 4 if tier == "quick" else 48
+    return [cases[i] for lane in range(lanes) for i in range(lane, len(cases), lanes)]
 
 
 # ----------------------------------------------------------------------------- shrinking
 def shrink(c):
     out = []
     op = c["op"]
-    if op in ("sub", "sup"):
+    mk = mask_kind(c)
+    if mk:
         w = WIDTH[c["ty"]]
         full = (1 << w) - 1
-        free = c["x"] if op == "sub" else full ^ c["x"]
-        for p in range(w):
-            if free >> p & 1:
-                out.append(mask_case(op, c["ty"], free & ~(1 << p)))
-        if c["ty"] not in ("u8", "i8") and free < 256:
-            out.append(mask_case(op, "i8" if c["ty"][0] == "i" else "u8", free))
-        if c["ty"][0] == "i":
-            out.append(dict(c, ty="u" + c["ty"][1:]))
+        free = c["x"] if mk == "sub" else full ^ c["x"]
+
+        def with_free(ty, f):
+            return dict(c, ty=ty, x=f if mk == "sub" else ((1 << WIDTH[ty]) - 1) ^ f)
+
+        if op in MASK_FULL and op != mk and free_bits(c) <= 16:
+            out.append({"op": mk, "ty": c["ty"], "x": c["x"]})             # the plain listing of the same mask
+        if "k" in c:
+            for k2 in sorted({c["k"] // 2, c["k"] - 1}):
+                if (1 if op in MASK_PRE else 0) <= k2 < c["k"]:
+                    out.append(dict(c, k=k2))
+        for q in range(w):
+            if free >> q & 1:
+                out.append(with_free(c["ty"], free & ~(1 << q)))
+        if op not in ("subzip", "supzip"):
+            if c["ty"] not in ("u8", "i8") and free < 256:
+                out.append(with_free("i8" if c["ty"][0] == "i" else "u8", free))
+            if c["ty"][0] == "i":
+                out.append(dict(c, ty="u" + c["ty"][1:]))
+        else:
+            for key in ("y", "z"):
+                for q in range(w):
+                    v = c[key] ^ (1 << q)
+                    if (key == "y" and v < c[key]) or (key == "z" and v > c[key]):
+                        out.append(dict(c, **{key: v}))
         return out
-    if op in ("np", "ip"):
+    if op in NEXT_OPS or op in ITER_FULL or op == "ipp":
         d = c["d"]
-        for k in range(len(d)):
+        if op == "npsub":
+            out.append({"op": "np", "d": next_input(c)})
+            for k in range(len(d)):
+                a, b = c["a"], c["b"]
+                out.append(dict(c, d=d[:k] + d[k + 1:], a=a - (1 if k < a else 0), b=b - (1 if k < b else 0)))
+            return out
+        if op in ("npg", "ipm", "ipzip", "ipg") and not (op == "npg" and c["kind"] == "unit"):
+            out.append({"op": "np" if op == "npg" else "ip", "d": d})        # the plain op on Vec<i64>
+        if op == "ipp":
+            for k2 in sorted({c["k"] // 2, c["k"] - 1}):
+                if 1 <= k2 < c["k"]:
+                    out.append(dict(c, k=k2))
+        if op == "ipzip":
+            for k in range(len(c["d2"])):
+                out.append(dict(c, d2=c["d2"][:k] + c["d2"][k + 1:]))
+        n = len(d)
+        if n > 2000:
+            # very long sequences: only cuts that keep the end of the sequence (the model reads the list by index: a
+            # long non-increasing candidate costs n^2 steps)
+            for cut in (d[n // 2:], d[n // 4:], d[n // 8:], d[n // 16:], d[1:], d[:1] + d[2:]):
+                out.append(dict(c, d=cut))
+            return out
+        if n > 60:
+            # long sequences: few, large steps (every candidate costs an executor run and a Coq evaluation)
+            for cut in (d[n // 2:], d[n // 4:], d[n // 8:], d[:n // 2], d[:n - n // 4], d[:n // 4] + d[n - n // 4:]):
+                out.append(dict(c, d=cut))
+            for k in (0, 1, n // 2, n - 2, n - 1):
+                out.append(dict(c, d=d[:k] + d[k + 1:]))
+            return out
+        for k in range(n):
             out.append(dict(c, d=d[:k] + d[k + 1:]))
         vals = sorted(set(d))
         ranked = [vals.index(v) for v in d]
-        if ranked != d:
+        if ranked != d and not ("kind" in c and c["kind"] in ("u8", "str")):
             out.append(dict(c, d=ranked))
         return out
-    for key in ("n", "m", "i", "j"):
+    if op in ("n4m", "n4dm", "n8m"):
+        out.append({"op": NB_OPS[op], "n": c["n"], "m": c["m"], "i": c["i"], "j": c["j"]})
+    for key in ("n", "m", "i", "j") + (("k",) if "k" in c else ()):
         v = c[key]
         for w in {v // 2, v - 1}:
             if 0 <= w < v:
@@ -372,94 +810,135 @@ def extra(ctx, known):
     """Exhaustive 16-bit masks and large wide masks, checked inside the executor (items are not printed): count =
     2^free, every item a sub/supermask, strictly monotone, first = x, last = 0 / all-ones.  These are consequences of
     c15_submasks_enumeration / c15_supermasks_enumeration / c15_*_count observed directly on the implementation; a
-    failure is replayed as an ordinary case (full output, model and specification in Coq)."""
+    failure is replayed as an ordinary case (full output, model and specification in Coq).  Every search runs in
+    every build profile."""
     import _driver
     rng = _driver.Rng(ctx.seed).fork("C15-extra")
+    quick = ctx.tier == "quick"
     cases = []
     for ty in ("u16", "i16"):
         for x in range(1 << 16):
             cases.append({"op": "sub", "ty": ty, "x": x})
             cases.append({"op": "sup", "ty": ty, "x": x})
-    nbig = 40 if ctx.tier == "quick" else 400
-    for _ in range(nbig):
-        ty = rng.choice(WIDE)
+    kmax = 18 if quick else 21
+    big = []
+    for ty in WIDE:                                   # every wide (type, op): at least two big masks
         w = WIDTH[ty]
-        k = rng.range(11, 18 if ctx.tier == "quick" else 21)
-        pos = list(range(w))
-        rng.shuffle(pos)
-        free = sum(1 << p for p in pos[:k]) | (1 << (w - 1) if rng.chance(1, 2) else 0)
-        cases.append(mask_case(rng.choice(["sub", "sup"]), ty, free))
-    lines = ["%sck %s %d %d" % (c["op"], c["ty"], c["x"], (1 << free_bits(c)) + 1) for c in cases]
-    outs = _driver.run_impl(ctx.bins[PROFILES[0]], lines)
-    bad, items = [], 0
-    for c, o in zip(cases, outs):
-        t = o.split()
-        w = WIDTH[c["ty"]]
-        want_last = 0 if c["op"] == "sub" else (1 << w) - 1
-        good = (len(t) == 5 and t[0] == "K" and int(t[1]) == 1 << free_bits(c) and t[2] == "1"
-                and t[3] == str(c["x"]) and t[4] == str(want_last))
-        items += int(t[1]) if len(t) == 5 and t[1].isdigit() else 0
-        if not good:
-            bad.append((c, o))
+        for op in ("sub", "sup"):
+            for r in range(2 if quick else 20):
+                k = rng.range(11, kmax)
+                if r % 2:                             # scattered bits, sometimes with the sign bit
+                    free = random_mask(rng, w, k) | (1 << (w - 1) if rng.chance(1, 2) else 0)
+                else:                                 # a run of adjacent bits placed across a limb boundary / at the top
+                    sh = rng.choice(sorted({q for q in (0, 20, 24, 28, 50, 56, 60, 118, w - k) if 0 <= q <= w - k}))
+                    free = ((1 << k) - 1) << sh
+                big.append(mask_case(op, ty, free))
+    for _ in range(8 if quick else 80):
+        ty = rng.choice(WIDE)
+        big.append(mask_case(rng.choice(["sub", "sup"]), ty, random_mask(rng, WIDTH[ty], rng.range(11, kmax))))
+    cases += big
+    # release only (thorough): the complete listings for the 32-bit all-ones / zero masks (2^32 items each), 24-28 free
+    # bits on the 64- and 128-bit types
+    huge = []
+    if not quick and "release" in PROFILES:
+        huge = [{"op": "sub", "ty": "u32", "x": (1 << 32) - 1}, {"op": "sup", "ty": "i32", "x": 0}]
+        for ty in ("u64", "i64", "u128", "i128", "usize", "isize"):
+            w = WIDTH[ty]
+            k = rng.range(24, 28)
+            huge.append(mask_case("sub", ty, random_mask(rng, w, k) | (1 << (w - 1))))
+            huge.append(mask_case("sup", ty, ((1 << k) - 1) << rng.choice([0, 30, 50, w - k])))
+    bad, items, nrun = [], 0, 0
+    for profile in PROFILES:
+        pcs = cases + (huge if profile == "release" else [])
+        lines = ["%sck %s %d %d" % (c["op"], c["ty"], c["x"], (1 << free_bits(c)) + 1) for c in pcs]
+        outs = _driver.run_impl(ctx.bins[profile], lines)
+        nrun += len(pcs)
+        for c, o in zip(pcs, outs):
+            t = o.split()
+            w = WIDTH[c["ty"]]
+            want_last = 0 if c["op"] == "sub" else (1 << w) - 1
+            good = (len(t) == 5 and t[0] == "K" and int(t[1]) == 1 << free_bits(c) and t[2] == "1"
+                    and t[3] == str(c["x"]) and t[4] == str(want_last))
+            items += int(t[1]) if len(t) == 5 and t[1].isdigit() else 0
+            if not good:
+                bad.append((c, o, profile))
     # permutations of 7 and 8 distinct elements (itertools.permutations of a sorted input is the lexicographic listing)
     pbad, pcount = [], 0
-    for n in (7, 8):
-        listing = [list(q) for q in itertools.permutations(range(1, n + 1))]
-        plines = ["np " + " ".join(map(str, q)) for q in listing]
-        pouts = _driver.run_impl(ctx.bins[PROFILES[0]], plines)
-        pcount += len(plines)
-        for k, (q, o) in enumerate(zip(listing, pouts)):
-            want = "R 1 " + " ".join(map(str, listing[k + 1])) if k + 1 < len(listing) else "R 0 " + " ".join(map(str, listing[0]))
-            if o.strip() != want:
-                pbad.append(({"op": "np", "d": q}, o))
-        d0 = list(range(n, 0, -1))
-        o = _driver.run_impl(ctx.bins[PROFILES[0]], ["ip %d %s" % (len(listing) + 1, " ".join(map(str, d0)))])[0]
-        pcount += 1
-        if o.strip() != "R " + " ".join(" ".join(map(str, q)) + " ;" for q in listing):
-            pbad.append(({"op": "ip", "d": d0}, o[:200]))
-    cov_perm = {"what": "next_permutation on every permutation of 7 and of 8 distinct elements and iter_permutations on both sets, "
-                        "compared with itertools.permutations of the sorted input (the lexicographic listing)",
+    for profile in PROFILES:
+        for n in (7, 8):
+            listing = [list(q) for q in itertools.permutations(range(1, n + 1))]
+            plines = ["np " + " ".join(map(str, q)) for q in listing]
+            pouts = _driver.run_impl(ctx.bins[profile], plines)
+            pcount += len(plines)
+            for k, (q, o) in enumerate(zip(listing, pouts)):
+                want = "R 1 " + " ".join(map(str, listing[k + 1])) if k + 1 < len(listing) else "R 0 " + " ".join(map(str, listing[0]))
+                if o.strip() != want:
+                    pbad.append(({"op": "np", "d": q}, o, profile))
+            d0 = list(range(n, 0, -1))
+            for op in ("ip", "ipm"):
+                line = "ip %d %s" % (len(listing) + 1, " ".join(map(str, d0))) if op == "ip" else \
+                       "ipm %d %d %s" % (len(listing) + 1, 1000, " ".join(map(str, d0)))
+                o = _driver.run_impl(ctx.bins[profile], [line])[0]
+                pcount += 1
+                if o.strip() != "R " + " ".join(" ".join(map(str, q)) + " ;" for q in listing):
+                    pbad.append(({"op": op, "d": d0, "k": 1000}, o[:200], profile))
+    cov_perm = {"what": "next_permutation on every permutation of 7 and of 8 distinct elements and iter_permutations on both sets "
+                        "(plain and through the Iterator-protocol op), compared with itertools.permutations of the sorted input "
+                        "(the lexicographic listing); every build profile",
                 "cases": pcount, "failures": len(pbad)}
     cov = {"impl_search_permutations": cov_perm,
            "impl_search": {"what": "every u16 and i16 mask (both iterators) and %d masks of the wider types with 11-%d free "
-                                   "bits, checked in the executor: count = 2^free, all items sub/supermasks, strictly "
-                                   "monotone, first = x, last = 0 / all-ones" % (nbig, 17 if ctx.tier == "quick" else 20),
-                           "cases": len(cases), "items_iterated": items, "failures": len(bad)}}
+                                   "bits (at least two per type and iterator; scattered bits and runs of adjacent bits), in "
+                                   "every build profile%s, checked in the executor: count = 2^free, all items "
+                                   "sub/supermasks, strictly monotone, first = x, last = 0 / all-ones"
+                                   % (len(big), kmax, "" if quick else "; release only: the complete 2^32-item listings of "
+                                      "iter_submasks(u32::MAX) and iter_supermasks(0i32) and %d masks with 24-28 free bits" % (len(huge) - 2)),
+                           "cases": nrun, "items_iterated": items, "failures": len(bad)}}
     viol = []
     if bad:
         bad.sort(key=lambda co: (free_bits(co[0]), WIDTH[co[0]["ty"]]))
-        c, o = bad[0]
-        payload = {"case": c, "impl_summary": o,
+        c, o, profile = bad[0]
+        payload = {"case": c, "impl_summary": o, "profile": profile,
                    "what": "implementation-level search: the iterator's output on this mask has the wrong length, is not "
                            "strictly monotone, contains a non-sub/supermask or has the wrong end points "
                            "(summary line: K count ok first last)", "other_failing_cases": len(bad) - 1}
         viol.append({"name": "impl-%s-%s-%d" % (c["op"], c["ty"], c["x"]), "payload": payload, "nofail": False})
     if pbad:
-        c, o = pbad[0]
+        c, o, profile = pbad[0]
         viol.append({"name": "impl-%s-%s" % (c["op"], "-".join(map(str, c["d"]))),
-                     "payload": {"case": c, "impl_observation": o, "other_failing_cases": len(pbad) - 1,
+                     "payload": {"case": c, "impl_observation": o, "profile": profile, "other_failing_cases": len(pbad) - 1,
                                  "what": "implementation-level search: not the lexicographic successor / listing of this sequence"},
                      "nofail": False})
     return {"coverage": cov, "violations": viol, "known": []}
 
 
 MANIFEST = {
-    "text": "Theorems (Coq, no axioms, 23 pinned) about an executable Gallina model of rlib_iter: sub/supermask iterators "
+    "text": "Theorems (Coq, no axioms, 30 pinned) about an executable Gallina model of rlib_iter: sub/supermask iterators "
             "as from_fn(step).chain([last]) over bit patterns of width w, next_permutation transcribed index by index on "
             "list Z, iter_permutations, the three neighbour iterators. Masks, every width w <= 128 (signed types through "
             "their bit pattern): c15_submask_succ / c15_supermask_succ ((s-1)&x is the greatest submask below s; (s+1)|x "
             "the least supermask above), c15_mask_stop, c15_submasks_enumeration / c15_supermasks_enumeration "
             "(terminates; exactly the sub/supermasks, strictly decreasing to 0 / increasing to all-ones, each once), "
-            "c15_submasks_filter / c15_supermasks_filter, c15_masks_terminate, c15_submasks_count / c15_supermasks_count. "
+            "c15_submasks_filter / c15_supermasks_filter, c15_masks_terminate, c15_submasks_count / c15_supermasks_count; "
+            "take(k) is the first k items (c15_submasks_take / c15_supermasks_take) and, for every width, has the closed form "
+            "i-th submask = deposit x (2^popcount x - 1 - i), i-th supermask = x + deposit (~x) i "
+            "(c15_submasks_take_closed / c15_supermasks_take_closed). "
             "Permutations with repeated elements: c15_next_perm_is_permutation, c15_next_perm_greater, "
             "c15_next_perm_minimal (it IS the lexicographic successor: nothing strictly between), c15_next_perm_wrap "
-            "(false exactly on non-increasing input, which is left sorted), c15_iter_permutations (starts sorted, "
-            "strictly increasing, consecutive successors, complete) with c15_sorted_listing_unique and "
-            "c15_iter_permutations_enumerated (= the directly enumerated list of distinct arrangements), finite "
+            "(false exactly on non-increasing input, which is left sorted), c15_next_perm_direct / "
+            "c15_spec_next_direct_agrees (the enumeration-free description of the successor used for long sequences - pivot "
+            "position, least greater element of the non-increasing rest, sorted tail - holds exactly of the model's result and "
+            "accepts exactly what the brute-force successor-in-the-listing specification accepts), c15_iter_permutations "
+            "(starts sorted, strictly increasing, consecutive successors, complete) with c15_sorted_listing_unique, "
+            "c15_iter_permutations_enumerated (= the directly enumerated list of distinct arrangements) and "
+            "c15_iter_permutations_take, finite "
             "cross-checks c15_*_small. Neighbours: c15_neighbours_4 / _4d / _8 (the fixed offset order filtered by the "
             "bounds; membership iff in-grid and adjacent; no repetition). c15_model_implies_spec. The model is tied to "
-            "the code on every run: the executor collects the real iterators' output (12 integer types, Vec<i64>, grids) "
-            "and Coq proves model = implementation and implementation |= brute-force specification on every case.",
+            "the code on every run: the executor collects the real iterators' output (12 integer types; Vec<i64> and six other "
+            "element types, sub-slices, arrays; grids; full listings, take(k) prefixes, sequences up to 65537 elements; plain "
+            "next() and the rest of the Iterator protocol, nested and interleaved iterators) "
+            "and Coq proves model = implementation and implementation |= specification (brute force where feasible, closed "
+            "form / direct successor description beyond) on every case.",
     "level_note": "Trusted: Coq kernel + vm_compute; the Rust executor and the Python case printer; w-bit integers are bit patterns "
                   "in N, usize->isize casts are the identity (sizes below 2^63); theorems are about the model, the correspondence "
                   "is exhaustive for 8-bit masks / short sequences / small grids and sampled beyond.",
